@@ -55,3 +55,48 @@ def register(reg):
                                  f'({xtried.replace("{n}", f"len({OPT})")}) or any(({xtried.replace("{n}", "k")}) and '
                                  f'not out_ok({OPT}[k], {XFRESH}) and out_cut({OPT}[k], {XFRESH}) for k in range(0, len({OPT})))')]},
         propagates=[f'grown({XS}, {XOS})'])
+    register_loops(reg)
+
+
+def register_loops(reg):
+    """the other `with ctx.<form>() as cl:` wrappers of generated code: the block registers the element (and separator) function,
+    then the wrapper calls the runtime primitive the model node calls -- so the wrapper's contract IS the primitive's contract with
+    the registered functions as arguments (derived by renaming, so the two cannot drift apart)."""
+    import re
+    X = 'tatsu/contexts/context.py'
+    reg.classes['ExpCtx'] = {'mro': ['tatsu/contexts/ctxlib/loopsep.py:LoopWithSepContext', 'tatsu/contexts/ctxlib/loop.py:LoopContext',
+                                     'tatsu/contexts/ctxlib/expsep.py:ExpWithSepContext', 'tatsu/contexts/ctxlib/exp.py:ExpContext',
+                                     'tatsu/contexts/ctxlib/_base.py:ContextBase'],
+                             'fields': {'_exp': 'optfunc:PARSE', '_sep': 'optfunc:PARSE', 'plus': 'bool', 'omitsep': 'bool', 'expected': 'seq[str]'},
+                             'untracked': ['ctx', 'result'],
+                             'isa': ['ExpContext', 'LoopContext', 'LoopWithSepContext', 'ExpWithSepContext', 'ContextBase']}
+    for alias in ('ExpContext', 'LoopContext', 'LoopWithSepContext', 'ExpWithSepContext'):
+        reg.class_alias[alias] = 'ExpCtx'
+    contract(reg, 'EXPBODY', ['C02'], {'f': 'func:EXPBODY', 'ctx': 'Ctx', 'cl': 'ExpCtx'}, ret='Val', generic=True, wf=False,
+             modifies=['cl._exp', 'cl._sep', 'cl.expected'],
+             ensures=['cl._exp == uf_body_exp(f)'],
+             note='the generated block under `with ctx.loopopt() as cl` (closure / skip-to forms): registers the element function')
+    contract(reg, 'EXPSEPBODY', ['C02'], {'f': 'func:EXPSEPBODY', 'ctx': 'Ctx', 'cl': 'ExpCtx'}, ret='Val', generic=True, wf=False,
+             modifies=['cl._exp', 'cl._sep', 'cl.expected'],
+             ensures=['cl._exp == uf_body_exp(f)', 'cl._sep == uf_body_sep(f)'],
+             note='the generated block under `with ctx.joinopt() as cl` (join / gather forms): registers element and separator functions')
+
+    def derive(name, prim, argmap, bodykind):
+        p = reg.contracts[f'{X}:ParseContext.{prim}']
+        def ren(t):
+            for k, v in argmap.items():
+                t = re.sub(rf'(?<![\w.]){k}(?![\w(])', f'({v})', t)
+            return t
+        contract(reg, f'{X}:ParseContext.{name}', ['C02'], {'self': 'Ctx'}, ret='None', requires=list(p.requires), ghost={'body': f'func:{bodykind}'},
+                 ensures=[(tag, ren(c)) for tag, c in p.clauses() if not re.search(r'(?<![\w.])result(?![\w])', c)],
+                 raises={k: [ren(c) for c in v] for k, v in p.raises.items()},
+                 propagates=[ren(c) for c in p.propagates], modifies=list(p.modifies))
+
+    E, SP = 'uf_body_exp(body)', 'uf_body_sep(body)'
+    derive('loopopt', 'closure#nosep', {'exp': E, 'sep': 'None', 'omitsep': 'False'}, 'EXPBODY')
+    derive('loopplus', 'positive_closure#nosep', {'exp': E, 'sep': 'None', 'omitsep': 'False'}, 'EXPBODY')
+    derive('joinopt', 'closure', {'exp': E, 'sep': SP, 'omitsep': 'False'}, 'EXPSEPBODY')
+    derive('joinplus', 'positive_closure', {'exp': E, 'sep': SP, 'omitsep': 'False'}, 'EXPSEPBODY')
+    derive('gatheropt', 'closure', {'exp': E, 'sep': SP, 'omitsep': 'True'}, 'EXPSEPBODY')
+    derive('gatherplus', 'positive_closure', {'exp': E, 'sep': SP, 'omitsep': 'True'}, 'EXPSEPBODY')
+    derive('skipto', 'skip_to', {'exp': E}, 'EXPBODY')
